@@ -21,7 +21,7 @@ FINDINGS = os.path.join(VERIF, "known-findings.json")
 PROPS = [f"C{n:02d}" for n in range(1, 21)]
 
 FIXED_ASSUMPTIONS = [
-    "extraction rules R1-R15 (DESIGN 3.3) applied to rustc's own -Zunpretty=expanded output of /repo/src; rustc's pretty-printer is trusted; tracing/tracing-attributes/tracing-futures are replaced by marker stubs in the tracing-on expansion",
+    "extraction rules R1-R17 (DESIGN 3.3) applied to rustc's own -Zunpretty=expanded output of /repo/src; rustc's pretty-printer is trusted; tracing/tracing-attributes/tracing-futures are replaced by marker stubs in the tracing-on expansion",
     "sequential semantics of std::sync::atomic, arc_swap::{ArcSwap,ArcSwapOption} (rcu / fetch_update = one atomic step), RwLock (never poisoned), Arc (clone = alias): the generated cell shims; memory orderings ignored",
     "user closures (f, condition, reducer, iterators) are deterministic, do not panic and do not call back into the operator; Clone on data values is faithful (clone_val)",
     "profile T units (C18, C19): `interfere_raw` / `call_raw` (any number of atomic steps of the other threads: they preserve the invariant and satisfy `rely`) are assumed; that every thread's checked guarantee implies the others' rely (tickets = sum of the threads' shares) is the standard rely/guarantee meta-argument, not machine-checked; sequentially consistent interleaving at shared-access granularity, one member = one thread, passive sink",
@@ -53,7 +53,7 @@ def templates(tier):
 def tree_key(tier):
     h = hashlib.sha256()
     files = []
-    for root in (os.path.join(REPO, "src"), os.path.join(VERIF, "contracts"), os.path.join(VERIF, "bin"), os.path.join(VERIF, "stubs"), os.path.join(VERIF, "weaver", "src")):
+    for root in (os.path.join(REPO, "src"), os.path.join(VERIF, "contracts"), os.path.join(VERIF, "bin"), os.path.join(VERIF, "stubs"), os.path.join(VERIF, "weaver", "src"), os.path.join(VERIF, "replay", "src")):
         for d, _, fs in os.walk(root):
             if "__pycache__" in d:
                 continue
@@ -446,7 +446,12 @@ def get_results(tier):
 REPLAY = os.path.join(BUILD, "replay-target", "release", "replay")
 SCENARIOS = {"take": ["take1", "take2", "take0", "take2L", "take2R"], "map": ["map", "mapL", "mapR"], "filter": ["filter", "filterR"], "scan": ["scan", "scanR"], "skip": ["skip1", "skip1R"], "from_iter": ["from_iter", "from_iterR"],
              "concat": ["concat2", "concat3", "concat2R", "concat2L", "concat3L"], "concat0": ["concat0"], "flatten": ["flatten", "flattenL"], "merge": ["merge2", "merge3", "merge2X", "merge2L", "merge3L", "merge2R"],
-             "combine1": ["combine2", "combine2L"], "combine2": ["combine2", "combine2X", "combine2L"], "combine3": ["combine2", "combine2X", "combine2L"], "share": ["share2", "share3"]}
+             "combine1": ["combine2", "combine2L"], "combine2": ["combine2", "combine2X", "combine2L"], "combine3": ["combine2", "combine2X", "combine2L"], "share": ["share2", "share3", "share3X", "share3XA"]}
+# C13: two subscriptions of the same source value overlap (suffix O; Q = both started up front); the oracle is the
+# property statement: each subscription, replayed alone with the same decisions of its peers, sees the same
+OVERLAP_SCENARIOS = {"take": ["take2O", "take2OQ", "take2LOQ"], "map": ["mapO", "mapOQ", "mapLOQ"], "filter": ["filterO", "filterOQ"], "scan": ["scanO", "scanOQ", "scanLOQ"], "skip": ["skip1O", "skip1OQ"],
+                     "from_iter": ["from_iterO", "from_iterPO"], "concat": ["concat2O", "concat2OQ", "concat2LOQ", "concat2POQ"], "flatten": ["flattenO", "flattenOQ", "flattenLOQ", "flattenPLOQ"],
+                     "merge": ["merge2O", "merge2OQ", "merge2LOQ"], "combine1": ["combine2OQ"], "combine2": ["combine2O", "combine2OQ", "combine2LOQ"], "combine3": ["combine2OQ"]}
 # scenarios in which the puppet sources are pullable (one answer per Pull) and the sink pulls only with none outstanding
 PULL_SCENARIOS = {"take": ["take2P", "take2PR"], "map": ["mapP", "mapPR"], "filter": ["filterP", "filterPR"], "scan": ["scanP", "scanPR"], "skip": ["skip1P", "skip1PR"], "from_iter": ["from_iterP"], "concat": ["concat2P", "concat3P"], "flatten": ["flattenP", "flattenPL"]}
 
@@ -526,7 +531,7 @@ def thread_search(template, pid, secs):
 # (share: a fan-out nested inside another, or another sink acting during a delivery).
 # They are explored by the bounded stand-in on every run, as a labelled supplement to the proof.
 PROFILE_GAPS = {
-    "share": {"scenarios": ["share2", "share3", "share3X", "share3X@[0,0,2,0,0,2,0,0]#16"], "why": "nested fan-out (a sink pulls from inside its handler and the source answers at once) and another sink acting during a delivery (share3X) are outside profile R of the unit share",
+    "share": {"scenarios": ["share2", "share3", "share3X", "share3X@[0,0,2,0,0,2,0,0]#16", "share3XA", "share3XA@[0,0,0,2,0,0]#15"], "why": "nested fan-out (a sink pulls from inside its handler and the source answers at once), another sink acting during a delivery (share3X) and a sink attaching from inside a handler (share3XA) are outside profile R of the unit share",
               "properties": ["C01", "C02", "C03", "C04", "C05", "C12", "C17"]},
 }
 
@@ -551,7 +556,7 @@ def gap_search(pid, key):
                     continue
                 excl = []
                 for f in load_findings().get("findings", []):
-                    if f.get("replay") and f["replay"]["scenario"].rstrip("LXPR") in [x.split("@")[0].rstrip("LXPR") for x in gap["scenarios"]]:
+                    if f.get("replay") and f["replay"]["scenario"].rstrip("LXPROAQ") in [x.split("@")[0].rstrip("LXPROAQ") for x in gap["scenarios"]]:
                         for x in f.get("excludes", [f["replay"]["expect"]]):
                             excl += ["--exclude", x]
                 entry = {"scenarios": [], "runs": 0, "hits": {}}
@@ -595,12 +600,14 @@ def replay_search(template, pid, secs=900):
     # histories of listed findings are not new violations
     excl = []
     for f in load_findings().get("findings", []):
-        if f.get("replay") and f["replay"]["scenario"].rstrip("LXPR") in [x.rstrip("LXPR") for x in SCENARIOS.get(template, [])] and f.get("property") == pid:
+        if f.get("replay") and f["replay"]["scenario"].rstrip("LXPROAQ") in [x.rstrip("LXPROAQ") for x in SCENARIOS.get(template, [])] and (f.get("property") == pid or f.get("kind") == "replay-only"):
             for x in f.get("excludes", [f["replay"]["expect"]]):
                 excl += ["--exclude", x]
     scs = list(SCENARIOS.get(template, []))
     if pid in ("C14", "C06", "C15", "C09", "C11", "C07"):
         scs += PULL_SCENARIOS.get(template, [])
+    if pid == "C13":
+        scs += OVERLAP_SCENARIOS.get(template, [])
     st = SEARCH_STATS.setdefault((template, pid), {"scenarios": [], "runs": 0, "runs_deepest_level": 0, "max_len": 10, "kind": "exhaustive enumeration of decision tapes (iterative deepening) of the most general conformant peers against the real crate"})
     for sc in scs:
         try:
@@ -722,7 +729,7 @@ def write_evidence(pid, tier, res, relevant, viol, known, wall, bounded=None):
         "coverage": {
             "obligations": obligations, "discharged": discharged,
             "checker_cmd": "verus <woven>.rs --output-json --time --error-format=json --multiple-errors 20 (one run per unit; units = contract template x {tracing off,on})",
-            "trusted_base": ["Verus 0.2026.09.13 / Z3", "rustc -Zunpretty=expanded", "weaver rewrite rules R1-R13", "cell shims (sequential model of atomics / ArcSwap / RwLock)"],
+            "trusted_base": ["Verus 0.2026.09.13 / Z3", "rustc -Zunpretty=expanded", "weaver rewrite rules R1-R17", "cell shims (sequential model of atomics / ArcSwap / RwLock)"],
             "explanation": "obligations = Verus verification conditions (one per function: handler, environment function, shim, lemma) of every woven unit that carries a clause tagged with this property; functions whose only failing obligations are listed known findings are excluded from both counts and listed under known_findings",
             "units": units, "samples": samples,
             "known_findings": [{"unit": u["unit"], "fn": e.get("fn"), "site": e.get("site"), "clause": e.get("clause"), "what": f.get("what")} for (u, e, f) in known],
